@@ -19,11 +19,13 @@ Definition undecided_tcp_lines : list N := [127; 172; 290; 344; 372; 373; 374; 3
 Definition dead_tcp_lines : list N := dead_bad_ttl_lines ++ dead_value_window_lines ++ dead_eol_pad_lines.
 
 (* ---- HTTP ---- *)
+(* proved reachable by the finite abstraction (Spec/ReachHttpSpec.v; walks of at most C13_HTTP_LEAVES = 3000 leaves) *)
+Definition live_http_lines : list N := [617; 618; 657; 659; 663; 676; 696; 697; 706; 711; 715; 721; 727; 739; 740; 744; 749; 753; 761; 765; 769; 773; 777; 778; 782; 794; 798; 815; 819; 823; 839; 865; 866; 867; 868; 872; 873; 881; 882; 890; 891; 895; 896; 897; 905; 906; 920].
 (* dead already for messages that give every literal exactly and the bare token as software string *)
 Definition dead_http_exact_lines : list N := [571; 575; 582; 583; 584; 585; 586; 590; 591; 598; 606; 910; 911].
 (* dead for messages with exact literals whose software string strictly contains the token (Expsw) *)
 Definition dead_http_expsw_lines : list N := [607; 641; 649; 671; 710; 811; 831; 847; 851].
 (* dead for messages in which a header value strictly contains its literal (ValueEquality) *)
 Definition dead_http_value_lines : list N := [636; 640; 645; 672; 688; 700; 701; 705; 725; 726; 731; 748; 757; 790; 802; 803; 835; 843; 919; 921].
-Definition undecided_http_lines : list N := [567; 611; 617; 618; 626; 627; 628; 657; 658; 659; 663; 676; 684; 696; 697; 698; 699; 706; 711; 715; 721; 727; 739; 740; 744; 749; 753; 761; 765; 769; 773; 777; 778; 782; 794; 798; 807; 815; 819; 823; 839; 865; 866; 867; 868; 872; 873; 881; 882; 890; 891; 895; 896; 897; 905; 906; 920].
+Definition undecided_http_lines : list N := [567; 611; 626; 627; 628; 658; 684; 698; 699; 807].
 Definition dead_http_lines : list N := dead_http_exact_lines ++ dead_http_expsw_lines ++ dead_http_value_lines.
